@@ -53,6 +53,10 @@ type Ctx struct {
 
 	streamID uint32
 
+	// gotHeaders is set once the header block that opens the response has
+	// arrived; a later block on the stream is a trailer. Read loop only.
+	gotHeaders bool
+
 	// Request and Response belong to whoever called RoundTrip, and that caller
 	// is free to release them the instant RoundTrip returns. The connection
 	// reads Request on the write loop and fills Response on the read loop, so
@@ -202,6 +206,7 @@ func acquireCtx(req *fasthttp.Request, res *fasthttp.Response) *Ctx {
 	ctx.Request = req
 	ctx.Response = res
 	ctx.streamID = 0
+	ctx.gotHeaders = false
 	ctx.done = false
 	ctx.resolved = false
 	ctx.finished = false
